@@ -228,6 +228,8 @@ func (h *hctr) EncryptBytes(ciphertext, plaintext []byte) {
 	if alias.InexactOverlap(ciphertext[:len(plaintext)], plaintext) {
 		panic("cipher: invalid buffer overlap")
 	}
+	// only len(plaintext) bytes are produced, the rest of a longer destination is not part of the message
+	ciphertext = ciphertext[:len(plaintext)]
 
 	var z1, z2 [blockSize]byte
 	// a) z1 generation
@@ -253,6 +255,8 @@ func (h *hctr) DecryptBytes(plaintext, ciphertext []byte) {
 	if alias.InexactOverlap(plaintext[:len(ciphertext)], ciphertext) {
 		panic("cipher: invalid buffer overlap")
 	}
+	// only len(ciphertext) bytes are produced, the rest of a longer destination is not part of the message
+	plaintext = plaintext[:len(ciphertext)]
 
 	var z1, z2 [blockSize]byte
 
